@@ -68,15 +68,15 @@ MAP = [
     (UT, 'splice_tuple', ['Ems.NArr.splice'], ['C03']),
     (UT, 'find_unused_dimension', ['Ems.NArr.findUnused'], ['C03']),
     # ---- polygons, centres, extent (C02, C06)
-    (G, 'CFGrid1DTopology._get_or_make_bounds', ['Ems.midBounds'], ['C06']),
-    (G, 'CFGrid1D._make_polygons', ['Ems.cf1dPolys', 'Ems.rect'], ['C02', 'C06']),
-    (G, 'CFGrid1D.face_centres', ['Ems.cf1dCentres'], ['C02']),
+    (G, 'CFGrid1DTopology._get_or_make_bounds', ['Ems.midBounds', 'Ems.Gen.cf1dMidBounds'], ['C06']),
+    (G, 'CFGrid1D._make_polygons', ['Ems.cf1dPolys', 'Ems.rect', 'Ems.Gen.cf1dPolygonPoints'], ['C02', 'C06']),
+    (G, 'CFGrid1D.face_centres', ['Ems.cf1dCentres', 'Ems.Gen.cf1dFaceCentres'], ['C02', 'C06']),
     (G, 'CFGrid1D.geometry', ['Ems.cf1dGeometryBox', 'Ems.contiguous'], ['C06']),
     (G, 'CFGrid2DTopology._get_or_make_bounds', ['Ems.derived2d', 'Ems.storedCorners', 'Ems.nanmean'], ['C06']),
-    (G, 'CFGrid2D._make_polygons', ['Ems.cf2dPolys'], ['C02', 'C06']),
+    (G, 'CFGrid2D._make_polygons', ['Ems.cf2dPolys', 'Ems.Gen.cf2dPolygonPoints'], ['C02', 'C06']),
     (G, 'CFGrid2D.face_centres', ['Ems.gridCentres'], ['C02']),
     (G, 'CFGrid.bounds', ['Ems.polysBounds', 'Ems.bbox'], ['C06']),
-    (A, 'ArakawaC._make_polygons', ['Ems.arakawaPolys'], ['C02', 'C06']),
+    (A, 'ArakawaC._make_polygons', ['Ems.arakawaPolys', 'Ems.Gen.arakawaPolygonPoints'], ['C02', 'C06']),
     (A, 'ArakawaC.face_centres', ['Ems.gridCentres'], ['C02']),
     (U, 'UGrid._make_polygons', ['Ems.ugridPolys'], ['C02', 'C06', 'C10']),
     (U, 'UGrid.bounds', ['Ems.polysBounds'], ['C06']),
@@ -237,7 +237,7 @@ def fingerprints(repo_root: pathlib.Path) -> dict:
 def lean_definitions() -> set:
     """every definition name in lean/EmsModel/Core, qualified by the namespaces it sits in"""
     out = set()
-    for p in sorted((VERIF / 'lean' / 'EmsModel' / 'Core').glob('*.lean')):
+    for p in sorted((VERIF / 'lean' / 'EmsModel' / 'Core').glob('*.lean')) + sorted((VERIF / 'lean' / 'EmsModel' / 'Gen').glob('*.lean')):
         ns: list = []
         for line in p.read_text().splitlines():
             m = re.match(r'\s*namespace\s+(\S+)', line)
